@@ -314,7 +314,10 @@ func FilterPMTPacketsToPids(packets []*packet.Packet, pids []int) ([]*packet.Pac
 	pmtPayload := pmtByteBuffer.Bytes()
 
 	// Determine if any of the given PIDs aren't in the PMT.
-	unfilteredPMT, _ := NewPMT(pmtPayload)
+	unfilteredPMT, err := NewPMT(pmtPayload)
+	if err != nil {
+		return nil, err
+	}
 
 	pmtPid := packet.Pid(packets[0])
 	var missingPids []int
@@ -337,7 +340,19 @@ func FilterPMTPacketsToPids(packets []*packet.Packet, pids []int) ([]*packet.Pac
 	}
 
 	// include +1 to account for the PointerField field itself
-	pointerField := PointerField(pmtPayload) + 1
+	pointerField := int(PointerField(pmtPayload)) + 1
+
+	// The section that is rewritten must be there as a whole: table header, the
+	// fixed part up to program_info_length, the program info and the CRC.
+	if len(pmtPayload) < pointerField+programInfoLengthOffset+2 {
+		return nil, gots.ErrPMTParse
+	}
+	firstSectionLength := int(sectionLength(pmtPayload[pointerField:]))
+	firstProgramInfoLength := int(pmtPayload[pointerField+programInfoLengthOffset]&0x0f)<<8 | int(pmtPayload[pointerField+programInfoLengthOffset+1])
+	if len(pmtPayload) < pointerField+int(PSIHeaderLen)-1+firstSectionLength ||
+		firstSectionLength < programInfoLengthOffset-1+firstProgramInfoLength+int(CrcLen) {
+		return nil, gots.ErrPMTParse
+	}
 
 	var filteredPMT bytes.Buffer
 
@@ -359,6 +374,11 @@ func FilterPMTPacketsToPids(packets []*packet.Packet, pids []int) ([]*packet.Pac
 	for offset := programInfoLengthOffset + 2 + programInfoLength; offset < PSIHeaderLen+sectionLength-pmtEsDescriptorStaticLen-CrcLen; {
 		elementaryPid := int(pmtPayload[offset+1]&0x1f)<<8 | int(pmtPayload[offset+2])
 		infoLength := uint16(pmtPayload[offset+3]&0x0f)<<8 | uint16(pmtPayload[offset+4])
+
+		// the stream's descriptors must end before the CRC
+		if int(offset)+int(pmtEsDescriptorStaticLen)+int(infoLength) > int(PSIHeaderLen)-1+int(sectionLength)-int(CrcLen) {
+			return nil, gots.ErrPMTParse
+		}
 
 		// This is an ES PID we want to keep
 		if pidIn(pids, elementaryPid) {
